@@ -1,8 +1,9 @@
 SPECIFICATION Spec
-CONSTANTS N = 7  Rule = "closed_all_axes"  Scene = "pair"
+CONSTANTS N = 7  SnapWhen = "after_devices"  NCalls = 2  Rule = "closed_all_axes"  Scene = "pair"
 INVARIANT TypeOK
 INVARIANT StateIsFresh
 INVARIANT AllValid
 INVARIANT AppliedOnce
+INVARIANT HistoryComplete
 PROPERTY NoApplyDuringParams
 CHECK_DEADLOCK FALSE
